@@ -259,16 +259,16 @@ func (r *zzvRecorder) log(ev map[string]any) {
 }
 
 type zzvClientStream struct {
-	name  string
-	key   *crypto.SessionKey
-	mu    sync.Mutex
-	acked bool
-	res   string        // "", "ok", "max", "err"
-	errs  string        // error text
+	name   string
+	key    *crypto.SessionKey
+	mu     sync.Mutex
+	acked  bool
+	res    string        // "", "ok", "max", "err"
+	errs   string        // error text
 	closed chan struct{} // WriteStreamClose seen
-	once  sync.Once
-	pid   chan int // the stub announced its process id on stdout
-	out   string
+	once   sync.Once
+	pid    chan int // the stub announced its process id on stdout
+	out    string
 }
 
 type zzvWriter struct {
@@ -400,7 +400,9 @@ func TestZZVShellTrace(t *testing.T) {
 	count := func(k string) { stMu.Lock(); stats[k]++; stMu.Unlock() }
 	overLimit := 0
 
-	oneStream := func(rng *mrand.Rand) {
+	// openStream opens one shell stream (scripted: a plain streaming "hold" session); when the session was
+	// acknowledged it returns the function that ends it (how: 0 own exit, 1 client close, 2 both), else nil
+	openStream := func(rng *mrand.Rand, scripted bool) func(how int) {
 		idMu.Lock()
 		nextID++
 		sid := nextID
@@ -409,18 +411,18 @@ func TestZZVShellTrace(t *testing.T) {
 		priv, pub, err := crypto.GenerateEphemeralKeypair()
 		if err != nil {
 			t.Error(err)
-			return
+			return nil
 		}
-		interactive := rng.Intn(3) == 0
+		interactive := !scripted && rng.Intn(3) == 0
 		code, hpub := h.HandleStreamOpen(peer, sid, sid+1000, interactive, pub)
 		if code != 0 {
 			t.Errorf("zzv: stream open refused: %d", code)
-			return
+			return nil
 		}
 		shared, err := crypto.ComputeECDH(priv, hpub)
 		if err != nil {
 			t.Error(err)
-			return
+			return nil
 		}
 		cs := &zzvClientStream{name: name, key: crypto.DeriveSessionKey(shared, sid+1000, pub, hpub, true), closed: make(chan struct{}), pid: make(chan int, 1)}
 		wr.mu.Lock()
@@ -437,7 +439,11 @@ func TestZZVShellTrace(t *testing.T) {
 			h.HandleStreamData(peer, sid, ct, 0)
 		}
 		meta := &ShellMeta{Command: "hold"}
-		switch rng.Intn(8) {
+		sel := 7
+		if !scripted {
+			sel = rng.Intn(8)
+		}
+		switch sel {
 		case 0:
 			meta.Command = "nothere" // whitelisted, but no such executable: slot taken, start fails, slot returned
 		case 1:
@@ -462,7 +468,7 @@ func TestZZVShellTrace(t *testing.T) {
 				pids.add(pid)
 			case <-time.After(20 * time.Second):
 				t.Errorf("zzv: the process of %s never announced itself", name)
-				return
+				return nil
 			}
 			live := pids.live()
 			for dl := time.Now().Add(3 * time.Second); max > 0 && live > max && time.Now().Before(dl); {
@@ -480,50 +486,88 @@ func TestZZVShellTrace(t *testing.T) {
 			rec.log(map[string]any{"ev": "OpenRetMax", "t": name})
 			count("max")
 			h.HandleStreamClose(sid)
-			return
+			return nil
 		case "err":
 			rec.log(map[string]any{"ev": "OpenRetErr", "t": name, "err": errs})
 			count("err:" + meta.Command)
 			h.HandleStreamClose(sid)
-			return
+			return nil
 		default:
 			t.Errorf("zzv: no answer to the metadata frame of %s", name)
+			return nil
+		}
+		return func(how int) {
+			var wg sync.WaitGroup
+			if how == 0 || how == 2 { // let the process end by itself: the line it is waiting for
+				wg.Add(1)
+				go func() {
+					defer wg.Done()
+					rec.log(map[string]any{"ev": "ExitSent", "t": name})
+					send(EncodeStdin([]byte("\n")))
+				}()
+			}
+			if how == 1 || how == 2 { // the client closes the stream
+				wg.Add(1)
+				go func() {
+					defer wg.Done()
+					if how == 2 {
+						time.Sleep(time.Duration(rng.Intn(3)) * time.Millisecond)
+					}
+					rec.log(map[string]any{"ev": "CloseCall", "t": name})
+					h.HandleStreamClose(sid)
+					rec.log(map[string]any{"ev": "CloseRet", "t": name})
+				}()
+			}
+			wg.Wait()
+			// the stream's own exit path always ends with WriteStreamClose (also after HandleStreamClose killed the process)
+			select {
+			case <-cs.closed:
+			case <-time.After(20 * time.Second):
+				t.Errorf("zzv: stream %s never closed (how=%d)", name, how)
+			}
+		}
+	}
+
+	oneStream := func(rng *mrand.Rand) {
+		if finish := openStream(rng, false); finish != nil {
+			time.Sleep(time.Duration(rng.Intn(16)) * time.Millisecond)
+			finish(rng.Intn(3))
+		}
+	}
+	observe := func() {
+		rec.log(map[string]any{"ev": "ObsCall", "w": "w1"})
+		n := ex.ActiveSessions()
+		rec.log(map[string]any{"ev": "ObsRet", "w": "w1", "n": n})
+	}
+	// scripted prologue of every round (max >= 2): fill all slots, let the client close one stream and wait until
+	// both of its release paths are through, then ask for two more sessions: only one slot is free
+	prologue := func(rng *mrand.Rand) {
+		if max < 2 {
 			return
 		}
-		time.Sleep(time.Duration(rng.Intn(16)) * time.Millisecond)
-		how := rng.Intn(3)
-		var wg sync.WaitGroup
-		if how == 0 || how == 2 { // let the process end by itself: the line it is waiting for
-			wg.Add(1)
-			go func() {
-				defer wg.Done()
-				rec.log(map[string]any{"ev": "ExitSent", "t": name})
-				send(EncodeStdin([]byte("\n")))
-			}()
+		var fs []func(int)
+		for i := 0; i < max; i++ {
+			fs = append(fs, openStream(rng, true))
 		}
-		if how == 1 || how == 2 { // the client closes the stream
-			wg.Add(1)
-			go func() {
-				defer wg.Done()
-				if how == 2 {
-					time.Sleep(time.Duration(rng.Intn(3)) * time.Millisecond)
-				}
-				rec.log(map[string]any{"ev": "CloseCall", "t": name})
-				h.HandleStreamClose(sid)
-				rec.log(map[string]any{"ev": "CloseRet", "t": name})
-			}()
+		observe()
+		if fs[0] != nil {
+			fs[0](1)
+			time.Sleep(20 * time.Millisecond)
 		}
-		wg.Wait()
-		// the stream's own exit path always ends with WriteStreamClose (also after HandleStreamClose killed the process)
-		select {
-		case <-cs.closed:
-		case <-time.After(20 * time.Second):
-			t.Errorf("zzv: stream %s never closed (how=%d)", name, how)
+		observe()
+		fs = append(fs[1:], openStream(rng, true), openStream(rng, true))
+		observe()
+		for i, f := range fs {
+			if f != nil {
+				f(i % 2)
+			}
 		}
+		observe()
 	}
 
 	seed := zzvSeed()
 	for round := 0; round < rounds; round++ {
+		prologue(mrand.New(mrand.NewSource(seed*7919 + int64(round))))
 		var wg sync.WaitGroup
 		stop := make(chan struct{})
 		var owg sync.WaitGroup
